@@ -391,7 +391,7 @@ def render(rng, items, decls, canonical=False, noise=True):
             s = f"{pending}:{'' if rng.random() < 0.2 else ' '}{s}"
             pending = None
         if noise and not canonical and rng.random() < 0.2:
-            s += rng.choice(["  # comment", " #", "\t# li x1, 5"])
+            s += rng.choice(["  # comment", " #", "\t# li x1, 5", " # größer ≥ 5 — ok ✓", " # label: nop # twice", "# 'quoted' \"text\""])
         tl.append(ind + s)
     if pending:
         tl.append(pending + ":")
@@ -403,7 +403,7 @@ def render(rng, items, decls, canonical=False, noise=True):
         out = []
         for l in ls:
             if rng.random() < 0.15:
-                out.append(rng.choice(["", "   ", "# a comment line", "\t# nop"]))
+                out.append(rng.choice(["", "   ", "# a comment line", "\t# nop", "# Kommentar mit Ümläuten ✓", "#", " \t "]))
             out.append(l)
         return out
     tl, dl = sprinkle(tl), sprinkle(dl)
